@@ -2,7 +2,8 @@
 C19 — executable model of the UltraVNC built-in file transfer of libvncserver
 (src/libvncserver/rfbserver.c) and of the TightVNC 1.3 file-transfer extension
 (src/libvncserver/tightvnc-filetransfer/), bug for bug, for the code WITH the fixes
-fixes/C19-ft-fd-leak.diff, fixes/C19-tight-upload-fd-leak.diff, fixes/C19-tight-path-confinement.diff.
+fixes/C19-ft-fd-leak.diff, fixes/C19-tight-upload-fd-leak.diff, fixes/C19-tight-path-confinement.diff,
+fixes/C19-tight-name-size-sign.diff.
 
 C ↔ model
   screen->permitFileTransfer == TRUE                 ↔ `Cfg.permit`
@@ -168,7 +169,7 @@ def doOpendir (p : Path) (s : S) : Option (List Path) × S :=
     match r.splitOn " " with
     | "ok" :: _ :: names =>
       match names.mapM unpct? with
-      | some ns => (some ns, emit (.fs (.opendir p) r) s)
+      | some ns => (some ns, emit .dirOpened (emit (.fs (.opendir p) r) s))
       | none => (none, emit (.envBad "opendir") (emit (.fs (.opendir p) "?") s))
     | _ => (none, emit (.envBad "opendir") (emit (.fs (.opendir p) "?") s))
   | none => (none, emit (.envBad "opendir") (emit (.fs (.opendir p) "?") s))
@@ -676,15 +677,14 @@ def tList (cfg : Cfg) (s : S) : S :=
         | none => s
         | some path => tListDir flags path s
 
-/-- Handle{Download,Upload}LengthError: the name size is 0 or larger than PATH_MAX-1.
-`(short)fNameSize` is negative from 32768 on, the calloc fails and nothing is read. -/
+/-- Handle{Download,Upload}LengthError: the name size is 0 or larger than PATH_MAX-1; the name is
+read and thrown away (`unsigned short fNameSize` with fixes/C19-tight-name-size-sign.diff: at most
+65535 bytes, so the stream stays in sync), then the error message is sent -/
 def tLengthError (n : Nat) (w : Wire) (s : S) : S :=
-  if n ≥ 32768 then s
-  else
-    let (o, s) := readExact n s
-    match o with
-    | none => closeClient s
-    | some _ => twire w s
+  let (o, s) := readExact n s
+  match o with
+  | none => closeClient s
+  | some _ => twire w s
 
 def tDownloadEnd (fd : Nat) (w : Wire) (s : S) : S :=
   let s := doClose false fd s
